@@ -161,6 +161,37 @@ def boundary_values(r, tier):
     return out
 
 
+def corner_values(r, tier):
+    """Values at the corners of the domain C03 names: grids of 40000 markers (each, and both at once), waveforms of 100000
+    points.  Too large for TLC to compare byte by byte: the driver reports sizes and its own round-trip verdict (big = True)."""
+    def g2(k):
+        return [{"off": rf64(r), "beat": rbytes(r, 8), "nbeats": rbytes(r, 4), "unk": rbytes(r, 4)} for _ in range(k)]
+
+    def g1(k):
+        idx, off, out = -4, -100.0, []
+        for _ in range(k):
+            out.append({"idx": idx, "off": list(struct.pack(">d", off))})
+            idx += 1
+            off += 22050.5
+        return out
+
+    def pts(k, full):
+        return [{"l": r.randrange(256), "m": r.randrange(256), "h": r.randrange(256), "lo": r.randrange(256) if full else 255,
+                 "mo": r.randrange(256) if full else 255, "ho": r.randrange(256) if full else 255} for _ in range(k)]
+    grids = [(40000, 40000), (40000, 0)] if tier == "quick" else [(40000, 40000), (40000, 0), (0, 40000), (21845, 21845), (21845, 21844), (30000, 10000)]
+    out = []
+    for a, b in grids:
+        out.append(("beat_data2", {"rate": rf64(r), "samples": rf64(r), "isset": 1, "dflt": g2(a), "adj": g2(b), "extra": []}))
+    for a, b in ([(32768, 32768), (32769, 2)] if tier == "quick" else [(32768, 32768), (32769, 2), (2, 40000), (32768, 0)]):
+        out.append(("beat_data1", {"rate": [rf64(r)], "count": [rf64(r)], "dflt": g1(a), "adj": g1(b)}))
+    for n in ([100000] if tier == "quick" else [100000, 99999, 65536]):
+        out.append(("overview2", {"pts": [{"l": x["l"], "m": x["m"], "h": x["h"]} for x in pts(n, False)], "spp": rf64(r),
+                                  "max": {"l": 1, "m": 2, "h": 3}, "extra": []}))
+        out.append(("hires1", {"spe": rf64(r), "pts": pts(n, True)}))
+        out.append(("overview1", {"spe": rf64(r), "pts": pts(n, False)}))
+    return out
+
+
 def mutate(payload, r):
     p = list(payload)
     c = r.random()
@@ -199,6 +230,10 @@ def format_check(prop, tier, seed, want_enc, want_dec_spec, want_dec_foreign, ru
         # payload lengths on and next to multiples of the chunk size of the (de)compression loops
         for (k, v) in boundary_values(rnd, tier):
             enc_lines.append(json.dumps({"kind": k, "v": v}) + "\n")
+        # the corners of the domain (C03: grids of 0..40000 markers, waveforms of 0..100000 points)
+        if prop == "C03":
+            for (k, v) in corner_values(rnd, tier):
+                enc_lines.append(json.dumps({"kind": k, "v": v, "big": True}) + "\n")
     if want_dec_spec:
         for v in vals:
             d = {"kind": v["kind"], "payload": v["payload"]}
